@@ -17,7 +17,7 @@ SHARDS = {"quick": 8, "thorough": 16}
 RULE = ("a settable state (power, mode 1..6, setpoint 13.0..43.5 step 0.5, fan 0..127, swing, eco, turbo, sleep, Fahrenheit, "
         "freeze protection, follow-me, purifier, target humidity 0..127, aux mode, beep) is written through AirConditioner "
         "setters + apply() (or, for a share of the cases, as setting=value arguments of `msmart-ng control`) to a model device whose 0x40 decoder follows the vendor Lua layout (and through SetStateCommand "
-        "directly for all 16 raw swing nibbles), on a fresh client, against a busy unit whose answer to the command reports its old state (alone, before or after the new report; apply() must leave the unit with one command: the requested one), after get_capabilities() against two capability profiles (one without custom fan speeds), or after a refresh from a unit whose state reports are short (16..21 bytes) or have every unmodelled bit of bytes 8..10 set, with or without property-protocol settings pending in the same apply(), while the object is otherwise idle or while an earlier refresh()/apply() of the same object is still awaiting its answer, through the canonical attributes or the deprecated alias attributes (eco_mode, turbo_mode, sleep_mode, freeze_protection_mode); the decoded body must equal the request field by field, vendor-fixed constants must "
+        "directly for all 16 raw swing nibbles), on a fresh client, with the enumerated settings assigned as plain integers instead of enum members, against a busy unit whose answer to the command reports its old state (alone, before or after the new report; apply() must leave the unit with one command: the requested one), after get_capabilities() against two capability profiles (one without custom fan speeds), or after a refresh from a unit whose state reports are short (16..21 bytes) or have every unmodelled bit of bytes 8..10 set, with or without property-protocol settings pending in the same apply(), while the object is otherwise idle or while an earlier refresh()/apply() of the same object is still awaiting its answer, through the canonical attributes or the deprecated alias attributes (eco_mode, turbo_mode, sleep_mode, freeze_protection_mode); the decoded body must equal the request field by field, vendor-fixed constants must "
         "hold (0x40, mobile-client bit, timers off, swing high bits 0x30, undefined bits clear), and no two different states may "
         "share a body. Per-field exhaustive sweeps (62 setpoints x 6 modes, 128 fan bytes, humidity 0..127, flags sharing a "
         "byte in all combinations) over two backgrounds, a greedy pairwise covering array, and Hypothesis random states. "
@@ -30,7 +30,7 @@ BASE = {"power": False, "mode": 2, "target": 24.0, "fan": 102, "swing": 0, "eco"
 FLAGS = ["power", "beep", "follow_me", "turbo", "eco", "purifier", "sleep", "fahrenheit", "freeze"]
 
 
-def _apply_and_get_body(s: dict, via: str, caps_profile=None, case_propset=0, case_aliases=False, inflight=None, busy=None):
+def _apply_and_get_body(s: dict, via: str, caps_profile=None, case_propset=0, case_aliases=False, inflight=None, busy=None, as_ints=False):
     """Returns (body bytes, model state, rejected list)."""
     from msmart.device import AirConditioner as AC
     from msmart.device.AC.command import SetStateCommand
@@ -120,6 +120,13 @@ def _apply_and_get_body(s: dict, via: str, caps_profile=None, case_propset=0, ca
             ac.freeze_protection_mode = s["freeze"]
             for name in ("eco", "turbo", "sleep", "freeze_protection"):
                 pass
+        if as_ints:
+            # the enumerated settings arrive as plain integers (settings restored from to_dict() / JSON, integrations that store numbers):
+            # IntEnum members and their integer values are interchangeable at the public setters
+            ac.operational_mode = int(s["mode"])
+            ac.fan_speed = int(s["fan"])
+            ac.swing_mode = int(s["swing"])
+            ac.aux_mode = int(s["aux"])
         if case_propset:
             # settings carried by the property protocol changed since the last apply (they travel in a second command)
             dev.ac.props.update({0x0009: b"\x00", 0x000A: b"\x00", 0x0048: b"\x64", 0x00E3: bytes(12), 0x0043: b"\x01", 0x0042: b"\x01", 0x0018: b"\x00"})
@@ -169,7 +176,7 @@ _SEEN: dict = {}
 def check_case(case: dict):
     s = case["state"]
     via = case.get("via", "device")
-    body, state, rejected = _apply_and_get_body(s, via, case.get("caps"), case.get("propset", 0), case.get("aliases", False), case.get("inflight"), case.get("busy"))
+    body, state, rejected = _apply_and_get_body(s, via, case.get("caps"), case.get("propset", 0), case.get("aliases", False), case.get("inflight"), case.get("busy"), case.get("as_ints", False))
     if rejected and "different control commands" in str(rejected[-1][1]):
         return ("extra-command", str(rejected[-1][1]) + f"; requested {s}")
     if rejected:
@@ -211,7 +218,7 @@ def replay(ctx, case):
 def _run_one(ctx, case):
     s = case["state"]
     nt = s != BASE
-    ctx.case(hash((tuple(sorted(s.items())), case.get("via", "device"), case.get("caps"), case.get("propset", 0), case.get("aliases", False), case.get("inflight"), case.get("busy"))), nt, cls=case.get("cls", "state") + "/" + case.get("via", "device"))
+    ctx.case(hash((tuple(sorted(s.items())), case.get("via", "device"), case.get("caps"), case.get("propset", 0), case.get("aliases", False), case.get("inflight"), case.get("busy"), case.get("as_ints"))), nt, cls=case.get("cls", "state") + "/" + case.get("via", "device"))
     if case.get("caps") and case.get("via", "device") == "device":
         ctx.label(("after a short state report (" if case["caps"].startswith("short") else "after a report with all unmodelled bits set (" if case["caps"] == "noisy" else "after get_capabilities (") + case["caps"] + ")")
     if case.get("inflight") and case.get("via", "device") == "device":
@@ -294,6 +301,8 @@ def run(ctx) -> None:
                 case = dict(case, busy=["old", "old+new", "new+old"][(i // 20) % 3])
             elif "via" not in case and i % 20 == 5 and case["state"]["fan"] >= 1 and case["state"]["swing"] in gens.SWING_MEMBERS:
                 case = dict(case, via="cli", propset=(i // 20) % 3)
+            if case.get("via", "device") == "device" and i % 7 == 3 and case["state"]["swing"] in gens.SWING_MEMBERS and 1 <= case["state"]["mode"] <= 6:
+                case = dict(case, as_ints=True)       # (on top of whatever history the case has)
             ctx.check(case, lambda c: _run_one(ctx, c))
     ctx.sweep("per-field exhaustive sweeps x 2 backgrounds + flag combinations + pairwise array", len(cases), True)
 
@@ -301,5 +310,5 @@ def run(ctx) -> None:
     wide = st.fixed_dictionaries({"state": st.one_of(full, full.flatmap(lambda s: st.integers(0, 127).map(lambda f: dict(s, fan=f))),
                                                      full.flatmap(lambda s: st.integers(0, 127).map(lambda h: dict(s, humidity=h)))),
                                   "via": st.sampled_from(["device", "device", "device", "command", "command", "cli"]), "cls": st.just("random"),
-                                  "caps": st.sampled_from([None, "caps0", "caps1", "caps0+refresh", "short16", "short19", "short21", "noisy", "noisy"]), "propset": st.sampled_from([0, 0, 1, 2]), "aliases": st.sampled_from([False, False, True]), "inflight": st.sampled_from([None, None, None, "refresh", "apply"]), "busy": st.sampled_from([None, None, None, "old", "old+new", "new+old"])})
+                                  "caps": st.sampled_from([None, "caps0", "caps1", "caps0+refresh", "short16", "short19", "short21", "noisy", "noisy"]), "propset": st.sampled_from([0, 0, 1, 2]), "aliases": st.sampled_from([False, False, True]), "inflight": st.sampled_from([None, None, None, "refresh", "apply"]), "busy": st.sampled_from([None, None, None, "old", "old+new", "new+old"]), "as_ints": st.sampled_from([False, False, True])})
     ctx.hyp("random", wide, lambda c: _run_one(ctx, c), ctx.n(2500, 320000))
